@@ -21,13 +21,13 @@ func c09Base(stage string, par, n int) *driver.Plan {
 
 func c09Gen(r *driver.Rand, thorough bool) *driver.Plan {
 	stage := driver.Pick(r, c09Stages...)
-	par := driver.Pick(r, 1, 2, 3, 4, 8, 9, 16)
+	par := genPar(r)
 	n := r.Intn(min(3*par, 24) + 1)
 	if thorough && r.Chance(1, 4) {
 		n = r.Intn(61)
 	}
 	p := c09Base(stage, par, n)
-	p.Cap = driver.Pick(r, 0, 0, 1, 3)
+	p.Cap = genCap(r)
 	p.Fn = r.Intn(60)
 	p.FnArg = r.Intn(n + 2)
 	if (stage == "fork.Map" || stage == "fork.FMap") && r.Chance(1, 2) {
